@@ -65,8 +65,8 @@ func switchCases(info *types.Info, sw *ast.SwitchStmt) (vals map[int64]bool, has
 func atoms(t *Term, set map[string]*Term) {
 	if t.Op == "ite" {
 		c := t.Args[0]
-		if _, ok := set[c.String()]; !ok {
-			set[c.String()] = c
+		if _, ok := set[c.Key()]; !ok {
+			set[c.Key()] = c
 		}
 		atoms(t.Args[1], set)
 		atoms(t.Args[2], set)
@@ -75,7 +75,7 @@ func atoms(t *Term, set map[string]*Term) {
 
 func evalTree(t *Term, asg map[string]bool) *Term {
 	for t.Op == "ite" {
-		if asg[t.Args[0].String()] {
+		if asg[t.Args[0].Key()] {
 			t = t.Args[1]
 		} else {
 			t = t.Args[2]
@@ -89,7 +89,7 @@ func evalTree(t *Term, asg map[string]bool) *Term {
 // atoms; at most 14 of them). It returns a description of the first
 // disagreement.
 func equivTrees(a, b *Term) (bool, string) {
-	if a.String() == b.String() {
+	if a.Key() == b.Key() {
 		return true, ""
 	}
 	set := map[string]*Term{}
@@ -109,7 +109,7 @@ func equivTrees(a, b *Term) (bool, string) {
 			asg[k] = m&(1<<i) != 0
 		}
 		x, y := evalTree(a, asg), evalTree(b, asg)
-		if x.String() != y.String() {
+		if x.Key() != y.Key() {
 			var cs []string
 			for _, k := range keys {
 				if asg[k] {
